@@ -70,6 +70,9 @@ Module SpecTypes (V : OrderedTypeFull').
     end.
 
   Definition is_SEmpty (s : spec) : bool := match s with SEmpty => true | _ => false end.
+  Definition is_SAny (s : spec) : bool := match s with SAny => true | _ => false end.
+  Definition is_SRange (s : spec) : bool := match s with SRange _ => true | _ => false end.
+  Definition is_SUnion (s : spec) : bool := match s with SUnion _ => true | _ => false end.
 
   (* static-type coercions the translator inserts; a failing coercion is an error
      the Python code would hit later as AttributeError *)
